@@ -10,10 +10,13 @@ use std::time::Duration;
 use sv_parser_parser::verif_hooks as hooks;
 use sv_parser_parser::{lib_parser, lib_parser_incomplete, sv_parser, sv_parser_incomplete, Span, SpanInfo};
 
+/// case indices below CATALOGUE_SLOTS are the fixed catalogue (the same inputs at every seed and in both tiers)
+pub const CATALOGUE_SLOTS: u64 = 3000;
+
 pub fn cases(tier: Tier) -> u64 {
     match tier {
-        Tier::Quick => 2000,
-        Tier::Thorough => 40000,
+        Tier::Quick => CATALOGUE_SLOTS + 2000,
+        Tier::Thorough => CATALOGUE_SLOTS + 40000,
         Tier::Tiny => 8,
     }
 }
@@ -200,15 +203,15 @@ fn with_keywords_directives(text: &str, rng: &mut Rng) -> Option<String> {
 
 const CLASSIFY_MS: u64 = 6000;
 
-/// small sentences whose list lengths vary the pressure on the memo table (how many entries are stored
-/// between two attempts at the same position), around constructs that are tried by several alternatives
-fn stress_sentence(rng: &mut Rng) -> String {
-    let n = rng.range(0, 40);
+const STRESS_TAILS: &[&str] = &["(a ##1 b)", "(a ##[1:3] b)", "a |-> b", "(@(posedge clk) a ##1 b)", "(a and b)"];
+const STRESS_TEMPLATES: usize = 8;
+
+fn stress_at(template: usize, n: usize, variant: usize) -> String {
     let ids = |k: usize, p: &str| (0..k).map(|i| format!("{}{}", p, i)).collect::<Vec<_>>();
-    match rng.below(8) {
+    match template {
         0 => {
             let mut conns = ids(n, "i");
-            conns.push(rng.pick(&["(a ##1 b)", "(a ##[1:3] b)", "a |-> b", "(@(posedge clk) a ##1 b)", "(a and b)"]).to_string());
+            conns.push(STRESS_TAILS[variant % STRESS_TAILS.len()].to_string());
             format!("module t; chk c1 (o, {}); endmodule\n", conns.join(", "))
         }
         1 => format!("module t; assign x = s ? {} : c; endmodule\n", ids(n + 1, "b").join(" + ")),
@@ -230,7 +233,119 @@ fn stress_sentence(rng: &mut Rng) -> String {
     }
 }
 
+/// small sentences whose list lengths vary the pressure on the memo table (how many entries are stored
+/// between two attempts at the same position), around constructs that are tried by several alternatives
+fn stress_sentence(rng: &mut Rng) -> String {
+    let n = rng.range(0, 40);
+    let t = rng.below(STRESS_TEMPLATES);
+    let v = rng.below(STRESS_TAILS.len());
+    stress_at(t, n, v)
+}
+
+const CATALOGUE_NS: &[usize] = &[0, 1, 2, 3, 4, 6, 8, 12, 16, 20, 24, 28, 32, 36, 40];
+
+/// The fixed catalogue: every vendored corpus program, then the stress family at fixed sizes.
+/// An entry is identified by the hash of its source text.
+pub fn catalogue_entry(env: &Env, i: usize) -> Option<String> {
+    let np = env.corpus.programs.len();
+    if i < np {
+        return Some(env.corpus.programs[i].clone());
+    }
+    let mut j = i - np;
+    // template 0 has the variants of its last connection, the others a single form
+    let per0 = CATALOGUE_NS.len() * STRESS_TAILS.len();
+    if j < per0 {
+        return Some(stress_at(0, CATALOGUE_NS[j / STRESS_TAILS.len()], j % STRESS_TAILS.len()));
+    }
+    j -= per0;
+    let t = 1 + j / CATALOGUE_NS.len();
+    if t < STRESS_TEMPLATES {
+        return Some(stress_at(t, CATALOGUE_NS[j % CATALOGUE_NS.len()], 0));
+    }
+    None
+}
+
+pub fn caps_for(n: usize) -> Vec<Option<usize>> {
+    let mut caps: Vec<Option<usize>> = vec![Some(0), Some(4096), Some(256), Some(128)];
+    if n <= 2500 {
+        caps.push(Some(64));
+    }
+    if n <= 1200 {
+        caps.push(Some(32));
+    }
+    if n <= 500 {
+        caps.push(Some(16));
+    }
+    if n <= 160 {
+        caps.push(Some(8));
+    }
+    if n <= 80 {
+        caps.extend([Some(4), Some(2), Some(1)]);
+    }
+    caps
+}
+
+fn capname(cap: Option<usize>) -> String {
+    match cap {
+        Some(0) => "default".to_string(),
+        Some(c) => c.to_string(),
+        None => "unbounded".into(),
+    }
+}
+
+/// Catalogue case: the capacity dependences of the fixed inputs are enumerated one by one in
+/// known_findings.json (signature CAT:<hash of the source>:<capacity>); one that is not listed is a
+/// violation whatever its cause.  `ms`: wall-clock bound of one small-capacity run (expiry = not observed).
+pub fn catalogue_case(env: &Env, ctx: &mut Ctx, i: usize, ms: u64) {
+    let src = match catalogue_entry(env, i) {
+        Some(s) => s,
+        None => return,
+    };
+    let text = match pp_str(&src, std::path::Path::new("c17.sv"), &Cfg::default()) {
+        Ok(Ok((t, _))) => t.text().to_string(),
+        _ => src.clone(),
+    };
+    ctx.count("catalogue_inputs", 1);
+    let (reference, _) = run_at(&text, Gram::Sv, false, None, false);
+    // (capacities below 8 are left to the random leg: runs of several seconds, mostly expiring)
+    for cap in caps_for(text.len()).into_iter().filter(|c| c.map(|c| c == 0 || c >= 8).unwrap_or(true)) {
+        let got = if cap.map(|c| c != 0 && c <= 256).unwrap_or(false) { run_bounded(&text, Gram::Sv, false, cap, false, ms) } else { Some(run_at(&text, Gram::Sv, false, cap, false)) };
+        let (r, info) = match got {
+            None => {
+                ctx.inconclusive("small_capacity_timeout");
+                continue;
+            }
+            Some(x) => x,
+        };
+        ctx.count("catalogue_runs", 1);
+        if info.c.evictions > 0 {
+            ctx.count("catalogue_runs_with_evictions", 1);
+        }
+        if r == reference {
+            continue;
+        }
+        let sig = format!("CAT:{:016x}:{}", hash_str(&src), capname(cap));
+        let m = format!(
+            "catalogue input #{}: result at memo capacity {} differs from the unbounded result: {} vs {} (evictions {})",
+            i,
+            capname(cap),
+            brief(&r),
+            brief(&reference),
+            info.c.evictions
+        );
+        let w = Obj::new().s("parsed_text", &text).s("source", &src).s("capacity", &capname(cap)).s("at_capacity", &brief(&r)).s("unbounded", &brief(&reference)).done();
+        ctx.violation("capacity-dependence-catalogue", &sig, &m, w);
+    }
+    ctx.nontrivial(hash_strs(&[&text, "cat"]));
+}
+
 pub fn run_case(env: &Env, ctx: &mut Ctx, idx: u64) {
+    if ctx.tier != Tier::Tiny && idx < CATALOGUE_SLOTS {
+        // SVVERIF_CAT_MS: longer bound for the enumeration run that produced the list in known_findings.json
+        let ms = std::env::var("SVVERIF_CAT_MS").ok().and_then(|x| x.parse().ok()).unwrap_or(3000);
+        catalogue_case(env, ctx, idx as usize, ms);
+        return;
+    }
     let mut rng = Rng::derive(ctx.seed, 17, idx, 0);
     let mut inp = workload::tree_input(env, &mut rng);
     if rng.chance(1, 4) {
@@ -257,32 +372,13 @@ pub fn run_case(env: &Env, ctx: &mut Ctx, idx: u64) {
     ctx.count("memo_hits_unbounded", rinfo.c.hits);
     ctx.count("memo_inserts_unbounded", rinfo.c.inserts);
     let n = text.len();
-    let mut caps: Vec<Option<usize>> = vec![Some(0), Some(4096), Some(256), Some(128)];
-    if n <= 2500 {
-        caps.push(Some(64));
-    }
-    if n <= 1200 {
-        caps.push(Some(32));
-    }
-    if n <= 500 {
-        caps.push(Some(16));
-    }
-    if n <= 160 {
-        caps.push(Some(8));
-    }
-    if n <= 80 {
-        caps.extend([Some(4), Some(2), Some(1)]);
-    }
+    let caps = caps_for(n);
     let mut any_evictions = false;
     for cap in caps {
         let ms = 3000;
         let t_run = std::time::Instant::now();
         let got = if cap.map(|c| c != 0 && c <= 256).unwrap_or(false) { run_bounded(&text, gram, incomplete, cap, false, ms) } else { Some(run_at(&text, gram, incomplete, cap, false)) };
-        let capname = match cap {
-            Some(0) => "default".to_string(),
-            Some(c) => c.to_string(),
-            None => "unbounded".into(),
-        };
+        let capname = capname(cap);
         let (r, info) = match got {
             None => {
                 ctx.inconclusive("small_capacity_timeout");
